@@ -267,7 +267,7 @@ def judge(ctx, T, sc, res, tag):
         # the documented relations fail on the implementation's own output: a genuine violation
         n = int(bad[0].split()[1])
         algo = sc["steps"][n]["algo"]
-        kind = "restart" if "restart:" in bad[0] else "update" if "update relation" in bad[0] else "eom" if "K u_t" in bad[0] \
+        kind = "params" if "params:" in bad[0] else "restart" if "restart:" in bad[0] else "update" if "update relation" in bad[0] else "eom" if "K u_t" in bad[0] \
             else "energy" if "energy" in bad[0] else "coefs"
         ctx.violation("impl:%s:%s%s" % (algo, kind, ":newton" if sc.get("newton") else ""), bad[0],
                       replay_of(one_step_scenario(sc, res, n) if kind not in ("energy", "restart") else sc), found_input=True)
@@ -312,16 +312,87 @@ def judge(ctx, T, sc, res, tag):
     ctx.obligation("corr:%s" % tag, not bad, "; ".join(bad[:2]))
 
 
-def scaled_twin(base, k):
-    """the same scenario with previous state, loads and prescribed values multiplied by 2^k (exact in floats)"""
+def scaled_twin(base, k=0, kT=0, kL=0, kE=0):
+    """the same scenario in other units, every factor a power of two (exact in floats):
+       values  x 2^k : previous state, loads, prescribed values            -> u, v, a x 2^k
+       time    x 2^kT: dt x s, v / s, a / s^2, density x s^2, Rayleigh (coefM / s, coefK x s), capacity c x s
+                                                                            -> u same, v / s, a / s^2
+       lengths x 2^kL: node coordinates x s, density / s^2 (2-D: K unchanged, M ~ rho L^2)   -> same u, v, a
+       moduli  x 2^kE: E (or k) x s, density x s, loads x s                                 -> same u, v, a"""
     import copy
-    s = 2.0 ** k
+    sV, sT, sL, sE = 2.0 ** k, 2.0 ** kT, 2.0 ** kL, 2.0 ** kE
     sc = copy.deepcopy(base)
-    for f in ("u", "v", "a"):
-        sc["state"][f] = [s * x for x in sc["state"][f]]
-    for d in sc["dirichlet"] + sc["neumann"]:
-        d["values"] = [s * x for x in d["values"]]
-    sc["scale_twin"] = {"k": k, "base": base}
+    sc["state"]["u"] = [sV * x for x in sc["state"]["u"]]
+    sc["state"]["v"] = [sV / sT * x for x in sc["state"]["v"]]
+    sc["state"]["a"] = [sV / sT / sT * x for x in sc["state"]["a"]]
+    def bc(holder):
+        for d in holder.get("dirichlet", []):
+            d["values"] = [sV * x for x in d["values"]]
+        for d in holder.get("neumann", []):
+            d["values"] = [sV * sE * x for x in d["values"]]
+    bc(sc)
+    for st in sc["steps"]:
+        bc(st)
+        st["dt"] = st["dt"] * sT
+    sc["coords"] = [[sL * c for c in pt] for pt in sc["coords"]]
+    if sc["kind"] == "thermal":
+        sc["k"] *= sE
+        sc["rho"] *= sE / (sL * sL)
+        sc["c"] *= sT
+    else:
+        sc["E"] *= sE
+        sc["rho"] *= sE * sT * sT / (sL * sL)
+        sc["rayleigh"] = [sc["rayleigh"][0] / sT, sc["rayleigh"][1] * sT]
+    what = ", ".join("%s x 2^%d" % (nm, e) for nm, e in (("values", k), ("time", kT), ("lengths", kL), ("moduli", kE)) if e)
+    sc["scale_twin"] = {"k": k, "kT": kT, "what": what, "base": base}
+    return sc
+
+
+def nudge(x, how):
+    """a near-equal value: 1 ulp up, or about 1e-6 relative (2^-20)"""
+    import math
+    return math.nextafter(x, math.inf) if how == "ulp" else x * (1 + 2.0 ** -20)
+
+
+def near_equal_steps(rng, algo):
+    """re-select the same scheme with parameters differing by ~1e-6 relative or 1 ulp from the ones in force"""
+    P = gen_params(rng, algo)
+    if algo == "hht_newmark":
+        P["alpha"] = 0.125
+    elif algo != "parabolic":
+        P["alpha"] = min(P["alpha"], 0.75)
+    steps = [dict(P)]
+    keys = ["dt", "alpha"] if algo == "parabolic" else ["dt", "dt", "beta", "gamma", "alpha"]
+    hows = ["rel", "ulp", "rel", "ulp", "rel"]
+    for key, how in zip(keys, hows):
+        P = dict(P)
+        if key == "alpha" and algo == "parabolic" and P["alpha"] >= 1.0:
+            P["alpha"] = 0.5
+        P[key] = nudge(P[key], how) if P[key] != 0 else 2.0 ** -20
+        steps.append(dict(P))
+    return steps
+
+
+def bc_switch_scenario(rng, algo):
+    """the scheme is selected once; then the constrained node set changes between steps keeping its size, the prescribed
+    values change, the loads move -- each step must satisfy its relations with the constraints in force at that step"""
+    kind = "thermal" if algo == "parabolic" else "elastic"
+    P = gen_params(rng, algo)
+    steps = [dict(P)] + [dict(P, keep_scheme=True) for _ in range(4)]
+    sc = gen_scenario(rng, kind, 0, steps=steps)
+    nn = len(sc["coords"])
+    dirs_all = ["t"] if kind == "thermal" else ["x", "y"]
+    nfix = rng.randint(1, nn - 2)
+    for i, st in enumerate(sc["steps"]):
+        if i == 2:
+            st["dirichlet"] = [dict(d) for d in sc["steps"][1]["dirichlet"]]      # unchanged set, new values
+            for d in st["dirichlet"]:
+                d["values"] = [dy(rng, -4, 4, 8) for _ in d["values"]]
+        else:
+            nodes = rng.sample(range(nn), nfix)
+            st["dirichlet"] = [{"nodes": [nd], "values": [dy(rng, -4, 4, 8) for _ in dirs_all], "dirs": list(dirs_all)} for nd in sorted(nodes)]
+        free = [nd for nd in range(nn) if nd not in [d["nodes"][0] for d in st["dirichlet"]]]
+        st["neumann"] = [{"nodes": [rng.choice(free)], "values": [dy(rng, -8, 8, 4)], "dirs": [rng.choice(dirs_all)]}]
     return sc
 
 
@@ -394,6 +465,18 @@ def correspondence(ctx, T):
         scs.append(("scale-base-%s" % a, base))
         for k in ([rng.choice(downs), rng.choice(ups)] if quick else downs + ups):
             scs.append(("scale-%s-2^%d" % (a, k), scaled_twin(base, k)))
+        units = [dict(kT=-30), dict(kL=-30), dict(kE=40), dict(kT=20), dict(kL=10, kE=-30), dict(k=-30, kT=-30, kL=-20, kE=34)]
+        for u in ([units[0], rng.choice(units[1:])] if quick else units):
+            scs.append(("units-%s-%s" % (a, "".join("%s%d" % kv for kv in sorted(u.items()))), scaled_twin(base, **u)))
+        # re-selecting the scheme with near-equal parameters (1e-6 relative, 1 ulp), also at a nanosecond time scale
+        ne = gen_scenario(rng, kind, 0, steps=near_equal_steps(rng, a))
+        scs.append(("near-equal-%s" % a, ne))
+        scs.append(("near-equal-%s-time2^-30" % a, scaled_twin(ne, kT=-30)))
+        dbl = gen_scenario(rng, kind, 0, steps=[dict(gen_params(rng, a), dt=d) for d in (0.25, 0.5, 0.25, 0.375)])
+        scs.append(("dt-change-%s" % a, dbl))
+        scs.append(("dt-change-%s-time2^-30" % a, scaled_twin(dbl, kT=-30)))        # dt = 2.3e-10 -> 4.7e-10 -> ...
+        # boundary conditions changing between steps while the scheme stays selected
+        scs.append(("bc-switch-%s" % a, bc_switch_scenario(rng, a)))
         if a != "euler_explicit":
             nb = gen_scenario(rng, "elastic", 2, newton=True, algos=[a])
             scs.append(("scale-base-newton-%s" % a, nb))
@@ -422,7 +505,7 @@ def correspondence(ctx, T):
         tw = sc.get("scale_twin")
         if tw and r["ok"] and by_id[id(tw["base"])]["ok"]:
             from corr import c05_replay
-            more = c05_replay.compare_scaled(sc, by_id[id(tw["base"])]["steps"], r["steps"], tw["k"])
+            more = c05_replay.compare_scaled(sc, by_id[id(tw["base"])]["steps"], r["steps"], tw["k"], tw.get("kT", 0), tw.get("what"))
             ctx.obligation("corr:%s:homogeneous" % tag, not more, "; ".join(more[:1]))
             if more:
                 n = int(more[0].split()[1])
